@@ -103,7 +103,7 @@ pub fn blind_roles(v: &SV) -> SV {
     }
 }
 
-fn scratch_dir() -> std::path::PathBuf {
+pub fn scratch_dir() -> std::path::PathBuf {
     let base = std::env::var("VERIF_WORK").unwrap_or_else(|_| "/verif/work".into());
     let p = std::path::PathBuf::from(base).join(format!("h{}", std::process::id()));
     std::fs::create_dir_all(&p).unwrap();
